@@ -1404,10 +1404,101 @@ def replay_list_map_eq(a):
     return a.replay_cases(exe, data, cases)
 
 
+def join_sequence(a):
+    """join(args, delimiter): what is appended to the result, in which order"""
+    QR = enum_variants(a.src, "rules/mod.rs", "QueryResult")
+    PV = enum_variants(a.src, "rules/path_value.rs", "PathAwareValue")
+    ex = a.exec(r"(?:(?:rules::functions::)?strings::)?join",
+                {"next": mirexec.m_iter_next, "iter": mirexec.m_new_iter, "into_iter": mirexec.m_new_iter, "enumerate": mirexec.m_identity,
+                 "with_capacity": lambda ex, av: ex.opq(), "re:String::is_empty$": lambda ex, av: ex.havoc("bool"),
+                 "re:<impl \\[.*\\]>::is_empty$": lambda ex, av: ("bool", f"(= {ex.len_of(av[0])} 0)"),
+                 "len": lambda ex, av: ("int", ex.len_of(av[0])), "self_path": lambda ex, av: ex.opq(), "clone": mirexec.m_identity},
+                log=("push_str", "push"), unroll=3, max_paths=60000, first_arg_re=r"_1: &\[(?:rules::)?QueryResult\]")
+    a.fns.append("rules::functions::strings::join")
+    args, delim = ex.arg_env["_1"], ex.arg_env["_2"]
+    rev = {}
+    for k, v in ex.proj.items():
+        if isinstance(k, tuple) and len(k) == 2 and isinstance(k[0], int) and isinstance(v, tuple) and v and v[0] == "opaque":
+            rev.setdefault(v[1], k[0])
+
+    def from_el(v, el):
+        i, d = (v[1] if v and v[0] == "opaque" else None), 0
+        while i is not None and d < 40:
+            if el is not None and el[0] == "opaque" and i == el[1]:
+                return True
+            i = rev.get(i)
+            d += 1
+        return False
+    bad, npath = [], 0
+    n = ex.len_of(args)
+    for p in ex.paths:
+        r = p.ret
+        if p.outcome == "panic" or not r or r[0] != "enum" or r[1] != "Result":
+            bad.append(pc_term(p.pc))
+            continue
+        # rebuild rev for projections created on this path too
+        for k, v in ex.proj.items():
+            if isinstance(k, tuple) and len(k) == 2 and isinstance(k[0], int) and isinstance(v, tuple) and v and v[0] == "opaque":
+                rev.setdefault(v[1], k[0])
+        okv = r[3].get("Ok")
+        if okv is None:
+            continue                         # an Err result: a non-string / unresolved member (kinds are decided by the Kani harness)
+        npath += 1
+        its = [(k, el, tag) for k, el, tag, _i in iterations(ex, p, it_filter=lambda ev: ex.iter_src.get(ev[2][0][1], ev[2][0]) == args)
+               if f"(= {tag} 1)" in p.pc]
+        pushes = [e for e in calls(p, "push_str")]
+        acc = pushes[0][2][0] if pushes else None
+        want_len = 2 * len(its) - 1 if its else 0
+        probs = []
+        if len(pushes) != want_len:
+            probs.append(f"{len(pushes)} pieces appended for {len(its)} members (expected {want_len}: members with one delimiter between neighbours)")
+        else:
+            for j, e in enumerate(pushes):
+                if not same_v(e[2][0], acc):
+                    probs.append("pieces go to different strings")
+                if j % 2 == 0:
+                    el = its[j // 2][1]
+                    if el is not None and el[0] == "tuple":
+                        el = el[1][1]
+                    if not from_el(e[2][1], el):
+                        probs.append(f"piece {j} is not the text of member {j // 2}")
+                elif not same_v(e[2][1], delim):
+                    probs.append(f"piece {j} is not the delimiter")
+        # the string returned is the one that was built
+        if okv[0] == "variant" and okv[3] and okv[3][0][0] == "tuple" and acc is not None and not same_v(okv[3][0][1][1], acc):
+            probs.append("the returned string is not the one built")
+        n_it = "(+ 0 0 " + " ".join(f"(ite (= {t} 1) 1 0)" for _k, _e, t, _i in iterations(ex, p, it_filter=lambda ev: ex.iter_src.get(ev[2][0][1], ev[2][0]) == args)) + ")"
+        complete = f"(= {n_it} {n})" if len(its) <= 3 else "true"
+        bad.append(f"(and {pc_term(p.pc)} (= {r[2]} 0) (not {'false' if probs else complete}))")
+    c = a.discharge("functions/join/sequence", ex, bad,
+                    f"join over <= 3 members ({npath} Ok paths), contents of the strings arbitrary (also empty): the result is built by appending, "
+                    "in order, member 0, delimiter, member 1, delimiter, ... member n-1 - exactly one delimiter between neighbours, none before "
+                    "the first or after the last, whatever the members contain; every member is visited; the string built is the one returned")
+    if c:
+        c["replay"] = replay_join(a)
+        c["reproduced"] = c["replay"].get("reproduced", False)
+        a.candidates.append(c)
+
+
+def replay_join(a):
+    exe = a.cli()
+    if not exe:
+        return {"reproduced": False, "note": "native build failed"}
+    data = ('{"abc": ["a", "b", "c"], "one": ["x"], "none": [], "lead": ["", "a", "b"], "lead2": ["", "", "a"], "mid": ["a", "", "b"],\n'
+            ' "tail": ["a", "b", ""], "allempty": ["", ""], "sp": ["a b", "c"]}\n')
+    lets = ("let j_abc = join(abc[*], \",\")\nlet j_one = join(one[*], \",\")\nlet j_lead = join(lead[*], \",\")\nlet j_lead2 = join(lead2[*], \",\")\n"
+            "let j_mid = join(mid[*], \",\")\nlet j_tail = join(tail[*], \",\")\nlet j_all = join(allempty[*], \",\")\nlet j_sp = join(sp[*], \"--\")\n"
+            "let j_e = join(abc[*], \"\")\n")
+    cases = [("%j_abc == \"a,b,c\"", "PASS"), ("%j_one == \"x\"", "PASS"), ("%j_lead == \",a,b\"", "PASS"), ("%j_lead2 == \",,a\"", "PASS"),
+             ("%j_mid == \"a,,b\"", "PASS"), ("%j_tail == \"a,b,\"", "PASS"), ("%j_all == \",\"", "PASS"), ("%j_sp == \"a b--c\"", "PASS"),
+             ("%j_e == \"abc\"", "PASS"), ("%j_abc == \"a,b,c,\"", "FAIL"), ("%j_lead == \"a,b\"", "FAIL")]
+    return a.replay_cases(exe, data, cases, prefix=lets)
+
+
 SITES = {
     "C01": [guard_block, type_block, binary_operation, operator_dispatch, match_value, common_operator, contained_in, eq_operation, in_operation, list_map_equality],
     "C02": [guard_block, type_block, record_tracker],
     "C03": [flip_closure, negated_compare_wrapper],
     "C13": [flip_closure, operator_dispatch, binary_operation, match_value, common_operator, contained_in, eq_operation, in_operation, list_map_equality],
-    "C18": [function_dispatch, elementwise],
+    "C18": [function_dispatch, elementwise, join_sequence],
 }
